@@ -439,8 +439,27 @@ def corpus_examples():
     return exs
 
 
+def fixed_examples():
+    """Every projection crossed with the split call shapes on a text that has splittable words (world 0 is the
+    repository's own test dictionary): create(projection=p) -> tokenize -> split(A / B) without out=, with a list of
+    its own as out=, with add_single given; also with the projection set in the configuration instead."""
+    exs = []
+    text = "東京都に行った"
+    for p in PROJECTIONS:
+        for cfgp in (None, "reading"):
+            ops = [("create", None, None, p, cfgp), ("tokenize", 1, text, None, False, False)]
+            for i in range(3):
+                ops.append(("split", i, "A", 0, None, False))
+                ops.append(("split", i, "B", 1, True, True))
+                ops.append(("split", i, "A", 0, False, False))
+            exs.append({"world": 0, "ops": ops})
+    return exs
+
+
 try:
     for _ex in corpus_examples():
+        one(_ex)
+    for _ex in fixed_examples():
         one(_ex)
     for _ex in limit_examples():
         one(_ex)
